@@ -251,7 +251,7 @@ func c01One(ix *model.Index, w *gen.World, sv *harness.Server, q gen.Query, c ge
 func runC01(r *report.Run) {
 	r.SetRule("seeded well-formed data files (structured description rendered with syntactic variety: all line types, both separators, default/explicit fields, octal escapes, mixed case, wildcards, nested zones, delegations with in-zone/below-cut/out-of-zone glue, occluded data, root/TLD zones, root delegation, empty file, locations and maps) compiled to CDB, RocksDB v1 and v2; queries = every owner, its ancestors and children, names through wild-safe and non-wild-safe labels, names outside the zones x declared and standard types x clients of every location (resolver and ECS); each response compared with a reference resolver working on the structured description only. non-trivial = distinct (file, query, location) whose prescribed class is not 'refused'; distinct by (file hash, qname, qtype, location)")
 	r.Assume("address answers are compared with max-answer >= number of candidates (then the served set is the set of positive-weight candidates); sections the statement leaves open (authority/additional of positive answers) are checked for soundness only; DS follows the code's documented special case (at a delegation point the authority decision is taken one label up, i.e. the parent zone answers; strictly below a delegation it is a referral); ANY/non-IN are outside this oracle (see C02/C13)")
-	nfiles := r.Pick(60, 3000)
+	nfiles := r.Pick(60, 1500)
 	for i := 0; i < nfiles; i++ {
 		seed := r.Seed*1000003 + int64(i)
 		layout := -1
